@@ -76,7 +76,10 @@ func (session *BasicHttpSubSession) Write(b []byte) {
 			PayloadLength: uint64(len(b)),
 			Masked:        false,
 		}
-		session.write(MakeWsFrameHeader(wsHeader))
+		// 注意，头部和负载必须作为一个整体进入发送队列。如果分成两次写，队列满时有可能只丢掉其中一个，
+		// 对端收到的websocket帧就错位了
+		_, _ = session.conn.Writev(net.Buffers{MakeWsFrameHeader(wsHeader), b})
+		return
 	}
 	session.write(b)
 }
